@@ -552,7 +552,13 @@ def handleScq (inp out : Toks) : String :=
          | _ => ("panic" :: acc).reverse)
     let model := run ScanState.fresh items []
     let stripDD (s : String) : String := if s.endsWith " dest-differs" then (s.dropEnd 13).toString else s
+    -- ` kept-changed`: the value the caller kept from that row (s.Geometry / the destination's value, the slices
+    -- themselves) printed differently after the later rows had been scanned
+    let stripKC (s : String) : String := if s.endsWith " kept-changed" then (s.dropEnd 13).toString else s
+    let keptChanged := segs.any (·.endsWith " kept-changed")
+    let segs := segs.map stripKC
     let gotFields := segs.map stripDD
+    if keptChanged then "propfail scanner-reuse kept-changed " ++ w else
     if segs.any (·.endsWith " dest-differs") then "propfail scanner-destination-differs" else
     -- the property, on the IMPLEMENTATION's rows: each must equal what the fresh-scanner model gives
     let fresh := items.map fun x => match step ScanState.fresh x with
